@@ -124,6 +124,30 @@ pub fn generate(family: &str, seed: u64, tier: &str) -> Vec<String> {
                 }
             }
         }
+        // C13 (only real timeouts are reported) and the error-kind table: scripted I/O errors of every kind, fatal and
+        // transient, at every offset of a sample of the small scripts
+        "x_errkinds" => {
+            let scripts = small_scripts(4);
+            let step = if thorough { 2 } else { 8 };
+            for (si, s) in scripts.iter().enumerate().filter(|(i, _)| i % step == 0) {
+                let r = render(&with(s, json!({"seed":si})));
+                let (wl, he) = (r.wire.len(), gu(&r.script, "headEnd"));
+                for at in 0..wl {
+                    if at + 3 < he && at % 5 != 0 {
+                        continue; // the head: every fifth offset
+                    }
+                    for (ki, io) in ["reset", "aborted", "brokenpipe", "timedout", "wouldblock", "other"].iter().enumerate() {
+                        for (fi, fk) in ["err", "errt"].iter().enumerate() {
+                            let p = if (at + ki + fi) % 2 == 0 { json!({"steps":[["send"],["reads"]],"pat":[2],"extra":2}) } else { json!({"steps":[["send"],["bytes"]]}) };
+                            let seg = if (at + ki) % 3 == 0 { json!({"segs":vec![1; wl]}) } else { json!({"pre":wl}) };
+                            out.push(with(&with(&with(s, seg), p), json!({"seed":si,"fault":{"kind":fk,"at":at,"io":io},
+                                "coding": if (si / step + ki) % 4 == 3 { "gzip" } else { "identity" },
+                                "id":format!("xk-{}-{}-{}-{}", si, at, io, fk)})));
+                        }
+                    }
+                }
+            }
+        }
         // C04: every status code x the status helpers (is_success / error_for_status / split)
         "x_status" => {
             for code in 100..1000usize {
